@@ -97,6 +97,9 @@ func World(t *T, s *model.Schema, d *model.Doc, opName string, vars map[string]*
 			}
 			if regime == "thunks" {
 				kinds = append(kinds, "thunk", "thunk", "thunk_err", "thunk_nil")
+				if ty.Nullable().IsList() {
+					kinds = append(kinds, "elem", "elem", "elem", "elem") // deferred list elements (and deferred values below them)
+				}
 			}
 			named := s.Type(ty.Name)
 			if o.Hostile {
@@ -174,6 +177,26 @@ func World(t *T, s *model.Schema, d *model.Doc, opName string, vars map[string]*
 					}
 				}
 				w.Outcomes[fmt.Sprintf("%s/%d", key, idx)] = ref.Outcome{Kind: ek}
+				if ek == "thunk" && chance(t, 70, "thunkBelowThunk") {
+					// a deferred value below the deferred element: a field of that object, or an
+					// element of that inner list
+					prefix := fmt.Sprintf("%s/%d/", key, idx)
+					var below []ref.Call
+					for _, x := range dry.Calls {
+						if k := ref.PathKey(x.Path); len(k) > len(prefix) && k[:len(prefix)] == prefix {
+							xt := model.T(x.ReturnType)
+							if !xt.NonNull() || (xt.Nullable().Named() && !s.IsComposite(xt.Name)) {
+								below = append(below, x)
+							}
+						}
+					}
+					if len(below) > 0 {
+						bk := ref.PathKey(below[uniform(t, len(below), "belowIdx")].Path)
+						if _, dup := w.Outcomes[bk]; !dup {
+							w.Outcomes[bk] = ref.Outcome{Kind: "thunk"}
+						}
+					}
+				}
 			case "type":
 				tk := "rt_nil"
 				arg := ""
